@@ -22,6 +22,10 @@
 //     lower-cased form of a variable that passed ValidateClientID right
 //     before, a value forwarded from another such function, anything else; and
 //     the callees of ValidateClientID.
+//  4. Every write of dnsforward.TLSConfig.StrictSNICheck (assignment, address
+//     taken, composite-literal key) in packages dnsforward and home, with its
+//     site: the flag the ClientID check reads must only be set where the
+//     configuration is loaded.
 //
 // Syntax outside the understood shapes (closures inside these functions, bare
 // returns, goto, …) aborts with file:line: a broken tie, never a default.
@@ -45,6 +49,8 @@ import (
 )
 
 const dfPkg = "github.com/AdguardTeam/AdGuardHome/internal/dnsforward"
+
+const homePkgPath = "github.com/AdguardTeam/AdGuardHome/internal/home"
 
 // Known request-derived selectors (keep in sync with lean/AGH/Props/C16.lean).
 var knownSources = map[string]int{
@@ -210,11 +216,19 @@ func main() {
 	if err != nil {
 		panic(err)
 	}
-	pkgs := load.Packages("./internal/dnsforward")
+	pkgs := load.Packages("./internal/dnsforward", "./internal/home")
+	var homePkg *packages.Package
 	for _, p := range pkgs {
 		if p.PkgPath == dfPkg {
 			pkg = p
 		}
+		if p.PkgPath == homePkgPath {
+			homePkg = p
+		}
+	}
+	if homePkg == nil {
+		fmt.Fprintln(os.Stderr, "extract c16: package home not loaded")
+		os.Exit(1)
 	}
 	if pkg == nil {
 		fmt.Fprintln(os.Stderr, "extract c16: package dnsforward not loaded")
@@ -752,6 +766,107 @@ func main() {
 		return true
 	})
 
+	// ---- 4. writes of TLSConfig.StrictSNICheck (packages dnsforward and home)
+	type strictWrite struct {
+		Pkg  string `json:"pkg"`
+		Func string `json:"func"`
+		Site int    `json:"site"` // 1 home.newDNSTLSConfig, 2 elsewhere in home, 3 dnsforward
+		Kind int    `json:"kind"` // 1 composite-literal key, 2 assignment / inc-dec, 3 address taken
+		Pos  string `json:"pos"`
+	}
+	var strictWrites []strictWrite
+	for _, p := range []*packages.Package{pkg, homePkg} {
+		pinfo := p.TypesInfo
+		isStrictField := func(e ast.Expr) bool {
+			se, ok := e.(*ast.SelectorExpr)
+			if !ok || se.Sel.Name != "StrictSNICheck" {
+				return false
+			}
+			sel, ok := pinfo.Selections[se]
+			if !ok || sel.Kind() != types.FieldVal {
+				return false
+			}
+			v, _ := sel.Obj().(*types.Var)
+
+			return v != nil && v.Pkg() != nil && v.Pkg().Path() == dfPkg
+		}
+		for _, f := range p.Syntax {
+			if strings.HasSuffix(p.Fset.Position(f.Pos()).Filename, "_test.go") {
+				continue
+			}
+			for _, d := range f.Decls {
+				fd, ok := d.(*ast.FuncDecl)
+				if !ok || fd.Body == nil {
+					// package-level variable initialisers
+					ast.Inspect(d, func(n ast.Node) bool {
+						if cl, isCL := n.(*ast.CompositeLit); isCL {
+							if tv, has := pinfo.Types[cl]; has && typeName(tv.Type) == "dnsforward.TLSConfig" {
+								for _, el := range cl.Elts {
+									if kv, isKV := el.(*ast.KeyValueExpr); isKV {
+										if k, isID := kv.Key.(*ast.Ident); isID && k.Name == "StrictSNICheck" {
+											die(kv, "TLSConfig literal with StrictSNICheck in a package-level initialiser")
+										}
+									}
+								}
+							}
+						}
+
+						return true
+					})
+
+					continue
+				}
+				site := 3
+				if p == homePkg {
+					site = 2
+					if funcName(fd) == "newDNSTLSConfig" {
+						site = 1
+					}
+				}
+				add := func(n ast.Node, kind int) {
+					pp := p.Fset.Position(n.Pos())
+					strictWrites = append(strictWrites, strictWrite{shortPkg(p.PkgPath), funcName(fd), site, kind, fmt.Sprintf("%s:%d", pp.Filename, pp.Line)})
+				}
+				ast.Inspect(fd.Body, func(n ast.Node) bool {
+					switch x := n.(type) {
+					case *ast.AssignStmt:
+						for _, l := range x.Lhs {
+							if isStrictField(l) {
+								add(x, 2)
+							}
+						}
+					case *ast.IncDecStmt:
+						if isStrictField(x.X) {
+							add(x, 2)
+						}
+					case *ast.UnaryExpr:
+						if x.Op == token.AND && isStrictField(x.X) {
+							add(x, 3)
+						}
+					case *ast.CompositeLit:
+						tv, has := pinfo.Types[x]
+						if !has || typeName(tv.Type) != "dnsforward.TLSConfig" {
+							return true
+						}
+						for _, el := range x.Elts {
+							kv, isKV := el.(*ast.KeyValueExpr)
+							if !isKV {
+								pp := p.Fset.Position(x.Pos())
+								fmt.Fprintf(os.Stderr, "extract c16: %s:%d: positional composite literal of TLSConfig\n", pp.Filename, pp.Line)
+								os.Exit(1)
+							}
+							if k, isID := kv.Key.(*ast.Ident); isID && k.Name == "StrictSNICheck" {
+								add(kv, 1)
+							}
+						}
+					}
+
+					return true
+				})
+			}
+		}
+	}
+
 	// ---- output
 	sortedKeys := func(m map[int]bool) (ks []int) {
 		for k := range m {
@@ -833,6 +948,12 @@ func main() {
 	b.WriteString("def validateCallees : List Nat := " + natList(vcs) + "\n\n")
 	b.WriteString("/-- ValidateClientID starts with `err = netutil.ValidateHostnameLabel(id)` on its parameter -/\n")
 	b.WriteString(fmt.Sprintf("def validateUnconditional : Nat := %d\n\n", validateUnconditional))
+	b.WriteString("/-- writes of dnsforward.TLSConfig.StrictSNICheck in packages dnsforward and home: (site, kind);\nsite 1 home.newDNSTLSConfig (configuration loading), 2 elsewhere in home, 3 dnsforward; kind 1 composite-literal key, 2 assignment, 3 address taken -/\n")
+	var sws []string
+	for _, w := range strictWrites {
+		sws = append(sws, fmt.Sprintf("(%d, %d)", w.Site, w.Kind))
+	}
+	b.WriteString("def strictFlagWrites : List (Nat × Nat) := [" + strings.Join(sws, ", ") + "]\n\n")
 	b.WriteString("end AGH.Gen.C16\n")
 
 	gen := filepath.Join(verif, "lean/AGH/Gen/C16Sources.lean")
@@ -845,10 +966,12 @@ func main() {
 		"closure_functions": len(closure), "distinct_sources": len(sourceSet), "source_reads": len(sourceFacts),
 		"unknown_sources": len(srcs.dyn), "escapes": len(escapeSet), "clientID_writes": len(writes),
 		"cache_ops": len(cacheOps), "extraction_calls": len(extrCalls), "returns_classified": len(rets),
+		"strict_flag_writes": len(strictWrites),
 	}
 	facts := map[string]any{
 		"summary": summary, "sources": sourceFacts, "escapes": escapeFacts, "writes": writes, "cache_ops": cacheOps,
 		"extraction_calls": extrCalls, "returns": rets, "validate_callees": validateCallees,
+		"strict_flag_writes": strictWrites,
 	}
 	js, _ := json.MarshalIndent(facts, "", " ")
 	if err = os.WriteFile(filepath.Join(verif, "build/C16/facts.json"), js, 0o644); err != nil {
